@@ -278,7 +278,9 @@ def _replay(chk, beh, idx, nnx, mods, vts):
       return key, f'call {c["call"]} under {kind}: returned {int(out)} (eager {eager_total}), specification {c["total"]}'
     if c.get('retid'):
       orig = pairs_before.get(c['retid'])
-      if retobj is None or (orig is not None and retobj is not orig):
+      # (identity of a returned object is more than the property states - "the returned value equals the eager result" - and
+      #  cached_partial hands back an equal copy of a cached argument: required only where the transform does provide it)
+      if retobj is None or (orig is not None and retobj is not orig and kind != 'cached_partial'):
         return key + ':returned', (f'call {c["call"]} under {kind}: the returned object #{c["retid"]} is not the caller\'s own object '
                                    '(a copy was returned instead)')
       want_sub = canon_model_multi(heap, [c['retid']])
@@ -308,10 +310,10 @@ def main(chk):
   mc = tlc.require_ok(tlc.run('NnxUpdateCtx', 'NnxUpdateCtx_mc.cfg', workers=16, timeout=1800), 'NnxUpdateCtx MC')
   chk.add_tlc(mc, 'NnxUpdateCtx MC (small)')
   tlc.require_actions(mc, ['UBuild', 'Choose', 'EndScript', 'Call'])
-  sim = tlc.require_ok(tlc.run('NnxUpdateCtx', 'NnxUpdateCtx_sim.cfg', workers=1, simulate=5000 if chk.thorough else 450, depth=40,
+  sim = tlc.require_ok(tlc.run('NnxUpdateCtx', 'NnxUpdateCtx_sim.cfg', workers=1, simulate=5000 if chk.thorough else 1800, depth=40,
                                seed=chk.seed + 17, timeout=3000), 'NnxUpdateCtx simulate')
   chk.add_tlc(sim, 'NnxUpdateCtx simulate (N=4, 5 edits, script <= 3, 2 calls)')
-  simd = tlc.require_ok(tlc.run('NnxUpdateCtx', 'NnxUpdateCtx_sim_dict.cfg', workers=1, simulate=1500 if chk.thorough else 200, depth=40,
+  simd = tlc.require_ok(tlc.run('NnxUpdateCtx', 'NnxUpdateCtx_sim_dict.cfg', workers=1, simulate=1500 if chk.thorough else 500, depth=40,
                                 seed=chk.seed + 19, timeout=3000), 'NnxUpdateCtx simulate (containers of Variables)')
   chk.add_tlc(simd, 'NnxUpdateCtx simulate, dict / list containers holding Variables')
   seen = set()
